@@ -370,6 +370,7 @@ func init() {
 		{"p2tr_misc", 10, join(tapLeaf, mMisc), tapLeafKind("misc", false), "native"},
 		{"p2tr_opsuccess", 6, join(mTapCommit, []string{"opsuccess_after_truncated", "scriptsig_nonempty"}), buildOpSuccess, "native"},
 		{"p2tr_budget", 4, []string{"budget_minus_one", "sig_corrupt", "wrong_parity"}, buildBudget, "native"},
+		{"p2tr_budget_mixed", 8, []string{"budget_minus_one", "budget_minus_one", "budget_minus_one", "sig_corrupt", "wrong_parity"}, buildBudgetMixed, "native"},
 		{"p2tr_bigstack", 3, []string{"stack_1001", "wrong_parity", "extra_item"}, buildBigStack, "native"},
 		{"p2tr_deep", 4, join(mTapSig, mTapCommit), tapLeafKind("pk", true), "native"},
 		{"p2tr_leafver", 6, join(mTapCommit, []string{"scriptsig_nonempty", "witness_empty"}), buildLeafVer, "native"},
